@@ -2,7 +2,7 @@
 units."""
 import ast
 
-from sa.helpers import (mkflow, spec, code, one, calls, bind_call, param_env,
+from sa.helpers import (the_return, mkflow, spec, code, one, calls, bind_call, param_env,
                         fmt, atom_of, unparse, walk_no_nested)
 from sa.index import AnalysisError
 from sa.algebra import RF, Slice
@@ -32,7 +32,7 @@ A = AR + '::ArraySpectrum'
 def ret(ix, site):
     f = ix.func(site)
     fl = mkflow(ix, site)
-    r = one(fl.of('return'), 'return')
+    r = the_return(fl)
     return f, fl, r
 
 
